@@ -32,27 +32,27 @@ CHECKS = {
    note=S_NOTE),
  'C12': dict(engine='vsched', cat='model_checking', ref='4 (C12), 2.2',
    technique='stateless model checking of the instrumented real code (list size reduced to 3 so the list->maps migration is reachable) plus vector-clock race detection on every IPv4Filter field',
-   text='Writers owning their ranges (crossing the migration, toggling 0.0.0.0/0) and readers; every interleaving at RWMutex and atomic operations; call/return instants are monitor events so every real-time order is explored; oracle is the statement itself (true required if one range present throughout the call, false required if none present at any time), final agreement with the per-goroutine sequential model on boundary probes, no race, no panic.',
+   text='Writers owning their ranges (crossing the migration, toggling 0.0.0.0/0) and readers; every interleaving at RWMutex and atomic operations; call/return instants are monitor events so every real-time order is explored; oracle is the statement itself (true required if one range present throughout the call, false required if none present at any time), final agreement with the per-goroutine sequential model on boundary probes, no race, no panic. Scenario G: /32, /31, /16 and /2 ranges on both sides of the list->maps switch.',
    note=S_NOTE + ' netutil is rebuilt with listSize=3 by constant override; if the constant disappears the check reports INFRA-ERROR rather than passing vacuously.'),
  'C19': dict(engine='vsched', cat='model_checking', ref='4 (C19), 2.2',
    technique='stateless model checking of the instrumented real code: call sequences are free choices enumerated together with all writer/consumer interleavings (unbounded)',
-   text='All 1036 call sequences (<=3 calls (thorough 4) x Write/WriteString x full/short/failing underlying writer x StringWriter or not x 4-byte or 70 000-byte payload) crossed with all interleavings of the writer and a consumer draining Status(), plus a wide-but-shallow scenario of 40 writes with a late consumer; invariant at every scheduling step: the writer is never disabled inside Write/WriteString; oracles: Size() equals the sum the wrapped writer reported (however the bytes were handed to it), received values are non-decreasing and each is a total after some completed call of the wrapped writer, after Close the last value is the total and the channel is closed.',
+   text='All 1036 call sequences (<=3 calls (thorough 4) x Write/WriteString x full/short/failing underlying writer x StringWriter or not x 4-byte or 70 000-byte payload) crossed with all interleavings of the writer and a consumer draining Status(), plus a wide-but-shallow scenario of 40 writes with a late consumer; invariant at every scheduling step: the writer is never disabled inside Write/WriteString; oracles: Size() equals the sum the wrapped writer reported (however the bytes were handed to it), received values are non-decreasing and each is a total after some completed call of the wrapped writer, after Close the last value is the total and the channel is closed. Payload sizes 4, 70 000 and 700 001 bytes; free choice of who calls Status() first (the writer\'s side up front, or the consumer whenever it starts).',
    note=S_NOTE),
  'C02': dict(engine='vsched', cat='model_checking', ref='4 (C02), 2.2',
    technique='stateless model checking of the instrumented real logger: all interleavings at pool get/put, outMu and inside the destination Write, differential oracle against the same record logged alone',
-   text='For each of the three handlers, 2-3 goroutines x 1-3 operations (root log, pre-derived child log, derive-then-log, below threshold, 20 KiB record, formatted log); Write begin/end are monitor events (no overlap may ever be observed), the multiset of chunks must equal byte-for-byte the lines produced by each call alone on a fresh handler, per-goroutine order preserved, nothing written below the threshold, no field-level race.',
+   text='For each of the three handlers, 2-3 goroutines x 1-3 operations (root log, pre-derived child log, derive-then-log, below threshold, 20 KiB record, formatted log); Write begin/end are monitor events (no overlap may ever be observed), the multiset of chunks must equal byte-for-byte the lines produced by each call alone on a fresh handler, per-goroutine order preserved, nothing written below the threshold, no field-level race. Every operation has its own instant (per-thread clocks), so a line carrying another record\'s time is a difference; two further scenarios derive from one shared non-root parent whose rendered attributes leave spare capacity (free choice of its width).',
    note=S_NOTE),
  'C11': dict(engine='vstate', cat='model_checking', ref='4 (C11), 2.3',
    technique='explicit-state BFS whose transition function is the real Add/Remove call, to a fixpoint with list size 3 and to depth 3-4 around the real switch at 256, against a set-of-prefixes reference model',
-   text='Every reachable state of the filter over an alphabet of 7 nesting/colliding ranges plus invalid arguments (list size rebuilt to 3: BFS to a fixpoint), and all sequences of depth 3 (quick) / 4 (thorough) from 16 prefilled configurations at the real list size (index 253..256, holes first/middle/last); in every state Contains is compared with the model on first/last/outside-neighbour probes in 4-byte and 16-byte form; rejected arguments (errors.Is ErrInvalidIPv4CIDR) are applied in every state and must leave every later membership answer unchanged.',
+   text='Every reachable state of the filter over an alphabet of 7 nesting/colliding ranges plus invalid arguments (list size rebuilt to 3: BFS to a fixpoint), and all sequences of depth 3 (quick) / 4 (thorough) from 16 prefilled configurations at the real list size (index 253..256, holes first/middle/last); in every state Contains is compared with the model on first/last/outside-neighbour probes in 4-byte and 16-byte form; rejected arguments (errors.Is ErrInvalidIPv4CIDR) are applied in every state and must leave every later membership answer unchanged. Right before every update the first and last address of the range being updated are looked up (a remembered lookup must not outlive the update).',
    note='Trusted base: the reflective canonical dump (complete, so states are never merged wrongly), the prefix-set model, the constant override of listSize for the small variant. Alphabet of 7 ranges + 5 invalid shapes; prefix lengths 0,1,8,9,12,32.'),
  'C04': dict(engine='vstate', cat='model_checking', ref='4 (C04), 2.3',
    technique='exhaustive enumeration of route tables (states) built on the real Mux in every registration order x all request paths/methods of a small alphabet dispatched through ServeHTTP (transitions), judged by an independent reference router',
-   text='All tables of <=2 (quick) / <=3 (thorough) routes over 37 patterns x 3 methods (single-route tables: 162 patterns x 5 methods), every registration order (each judged against the reference router), registrations that are rejected (recovered by the caller, the Mux used on) included, 3105 request paths x 5 method strings each; exactly one handler exactly once, no panic, the handler the documented precedence selects, its RouteInfo, and every parameter lookup bound to the exact path text.',
+   text='All tables of <=2 (quick) / <=3 (thorough) routes over 37 patterns x 3 methods (single-route tables: 162 patterns x 5 methods), every registration order (each judged against the reference router), registrations that are rejected (recovered by the caller, the Mux used on) included, 3105 request paths x 5 method strings each; exactly one handler exactly once, no panic, the handler the documented precedence selects, its RouteInfo, and every parameter lookup bound to the exact path text. After each table one request per route (and one unmatched) is served with a panicking handler and the table is judged again; patterns include literal segments that merely begin with \'*\' or \':\'.',
    note='Trusted base: the reference router written from the statement (greedy literal > :param > *, empty segments skipped except a final one, root first, exact method > *). Paths without a leading slash: only one-handler-once-no-panic is required (segmentation undefined by the statement). Patterns without a leading slash are not generated.'),
  'C05': dict(engine='vstate+vsched', cat='model_checking', ref='4 (C05), 2.2, 2.3',
    technique='explicit-state BFS over request/registration histories on one real Mux with explicit pool choices, differential oracle against a fresh Mux; plus stateless model checking of 2-3 concurrent requests with race detection',
-   text='All histories to depth 4 (quick) / 6 (thorough) over 9 requests x 3 pool behaviours + late registration of a route with more parameters; in relay, route and no-route handlers the observation vector (route info, every parameter name that exists anywhere, RouteParamAny, initial status, request id read twice) must equal the one on a fresh Mux with the same routes; ids unique within the Mux and constant during the request (no format is assumed). Concurrent part: all interleavings (unbounded for 2 clients x 2 requests) at pool get/put and the id counter, field-level race detection.',
+   text='All histories to depth 4 (quick) / 6 (thorough) over 9 requests x 3 pool behaviours + late registration of a route with more parameters; in relay, route and no-route handlers the observation vector (route info, every parameter name that exists anywhere, RouteParamAny, initial status, request id read twice) must equal the one on a fresh Mux with the same routes; ids unique within the Mux and constant during the request (no format is assumed). Concurrent part: all interleavings (unbounded for 2 clients x 2 requests) at pool get/put and the id counter, field-level race detection. One request\'s handler writes a status and panics through the relay (nobody below ServeHTTP recovers).',
    note=S_NOTE + ' The state key contains every pooled Store (names, values up to capacity, status, id length); the id counter is excluded (ids are checked along each path).'),
  'C01': dict(engine='vstate-style enumeration (vlogrun)', cat='model_checking', ref='4 (C01), 2.3, 2.4',
    technique='bounded exhaustive enumeration of inputs (all 1-/2-byte strings, all Unicode scalars) and of With/WithGroup chain x call-site attribute trees within a node budget, every record run through the real Logger+JsonHandler and judged by an independent ordered JSON reader and reference builder',
@@ -64,19 +64,19 @@ CHECKS = {
    note=LOG_NOTE),
  'C03': dict(engine='vstate+vsched', cat='model_checking', ref='4 (C03), 2.2, 2.3',
    technique='explicit-state BFS over derivation trees of the real handlers with a differential oracle (isolated replay of each logger\'s own chain; call-site equivalence), plus stateless model checking of two concurrent derivers with race detection',
-   text='For each handler: all derivation trees of <=5 (thorough 6) loggers over 6 derivation kinds; after every derivation every existing logger is probed and must write byte-for-byte what a logger built alone from a fresh root by replaying its own chain writes, and structurally what a root logger given the With attributes at the call site writes. The aliasing precondition (parent with spare buffer capacity and >=2 children) is counted where the handler layout allows. Concurrent part: two goroutines deriving from a shared non-root parent and logging through child, parent and grandchild, all interleavings to the bound.',
+   text='For each handler: all derivation trees of <=5 (thorough 6) loggers over 6 derivation kinds; after every derivation every existing logger is probed and must write byte-for-byte what a logger built alone from a fresh root by replaying its own chain writes, and structurally what a root logger given the With attributes at the call site writes. The aliasing precondition (parent with spare buffer capacity and >=2 children) is counted where the handler layout allows. Concurrent part: two goroutines deriving from a shared non-root parent and logging through child, parent and grandchild, all interleavings to the bound. Further passes: an empty group given to With must not appear (as at the call site); With(n attributes) for n = 20..1600 with a sibling derived afterwards, everybody compared with the same logger built alone (rendered sizes through every buffer growth step).',
    note=S_NOTE),
  'C15': dict(engine='vsched + enumeration', cat='model_checking', ref='4 (C15), 2.2',
    technique='exhaustive enumeration of handler behaviours through the real Mux+Relay judged per log format, plus stateless model checking of 2-3 requests in flight',
-   text='Sequential part: 77 behaviours (11 write patterns x {no panic, panic after writing with 6 value kinds} + panic before writing x 6) x matched/no-route x 2 client address forms x 3 log handlers x 2 thresholds = 1992 requests; no panic escapes, the recorder sees 500 iff the handler panicked before writing, exactly one REQ_BEG/REQ_END (Info) carrying method, URI, client IP, the id the handler saw and the status the client received, exactly one Error record with the panic value and the same id. Concurrent part: 2 and 3 requests in flight for each log handler, all interleavings to the bound; records pair up by id.',
+   text='Sequential part: 77 behaviours (11 write patterns x {no panic, panic after writing with 6 value kinds} + panic before writing x 6) x matched/no-route x 2 client address forms x 3 log handlers x 2 thresholds = 1992 requests; no panic escapes, the recorder sees 500 iff the handler panicked before writing, exactly one REQ_BEG/REQ_END (Info) carrying method, URI, client IP, the id the handler saw and the status the client received, exactly one Error record with the panic value and the same id. Concurrent part: 2 and 3 requests in flight for each log handler, all interleavings to the bound; records pair up by id. Write patterns include Flush / FlushError and a body streamed with io.Copy; panic values include a typed nil error with value receiver and unhashable values (slice, map, struct holding a slice, func).',
    note=S_NOTE + ' Records are decoded by the JSON reader / text tokenizer / positionally (nano).'),
  'C16': dict(engine='enumeration', cat='exploration', ref='4 (C16), 2.4',
    technique='exhaustive enumeration of all strings up to length 5 over the 15-symbol alphabet against a POSIX word-splitting model, and up to length 4 (quick) / 5 (thorough) against the real dash and bash',
-   text='About 1.75 M (function, string) pairs through the model - all strings of length <= 5 (thorough 6) over the 15-symbol alphabet, tilde prefixes ~w/w\', every single byte - (exactly one word, equal to the input, no expansion / substitution / glob / operator / comment / tilde event, except exactly one tilde expansion for ExceptTilde on ~/ inputs; results kept across calls must not change) and about 450 000 words through dash and bash in batch scripts (one argument equal to the input, or $HOME/rest).',
+   text='About 1.75 M (function, string) pairs through the model - all strings of length <= 5 (thorough 6) over the 15-symbol alphabet, tilde prefixes ~w/w\', every single byte - (exactly one word, equal to the input, no expansion / substitution / glob / operator / comment / tilde event, except exactly one tilde expansion for ExceptTilde on ~/ inputs; results kept across calls must not change) and about 450 000 words through dash and bash in batch scripts (one argument equal to the input, or $HOME/rest). Plus long words of one repeated unit (every count up to 96 bytes) followed by each short tail.',
    note='Trusted base: the word-splitting model (engine/voracle/shellmodel.go), itself cross-checked against two real shells on the same words; non-interactive shells (history expansion off), HOME containing a space and a quote.'),
  'C17': dict(engine='enumeration', cat='exploration', ref='4 (C17), 2.4',
    technique='exhaustive enumeration of all URL paths up to length 9 (thorough 11) over 4 symbols, and up to length 7 over a percent-escape alphabet, x 12 bases against a lexical containment oracle',
-   text='Every URL path of length <= 9 (thorough 11) over {/ . a \\\\} and of length <= 7 over {/ . % 2 e f} x 12 bases (about 4.8 M pairs quick): the result must be the cleaned base or lexically beneath it, and for paths without dot segments equal the plain join (percent-escapes stay literal).',
+   text='Every URL path of length <= 9 (thorough 11) over {/ . a \\\\} and of length <= 7 over {/ . % 2 e f} x 12 bases (about 4.8 M pairs quick): the result must be the cleaned base or lexically beneath it, and for paths without dot segments equal the plain join (percent-escapes stay literal). Plus long paths of one repeated unit (every count up to 130) followed by each short climbing tail.',
    note='Trusted base: the segment-wise containment oracle; lexical only (no symlinks on disk).'),
  'C10': dict(engine='enumeration', cat='exploration', ref='4 (C10), 2.4',
    technique='exhaustive enumeration of all argument vectors up to length 4 (quick) / 5 (thorough) over 31 tokens against a reference parser of the documented grammar',
@@ -84,15 +84,15 @@ CHECKS = {
    note='Trusted base: the reference parser (checks/c10/main.go, written from the documented grammar). Only the command line speaks (no CFG_* variables, no -config).'),
  'C09': dict(engine='enumeration', cat='exploration', ref='4 (C09), 2.4',
    technique='exhaustive enumeration of generated configurations (reflect.StructOf) over field kind x nesting x tag syntax x all 16 source subsets x value sets x JSON carrier x cli spelling x second-field subsets',
-   text='About 123 000 (quick) / 246 000 (thorough) Parse calls over 9 kinds x 4 nesting positions (incl. acronym names DB.URL -> CFG_DB_URL) x 2 tag syntaxes x 16 source subsets x 3 value sets x 3 JSON carrier modes (file, CFG_CONFIG_B64, both: the file wins) x 3 cli spellings x the second field\'s subsets, each with its own environment and config file; the field must equal the strconv-parsed value of the highest-priority source mentioning it, the second field its own, and trailing args are preserved.',
+   text='About 123 000 (quick) / 246 000 (thorough) Parse calls over 9 kinds x 4 nesting positions (incl. acronym names DB.URL -> CFG_DB_URL) x 2 tag syntaxes x 16 source subsets x 3 value sets x 3 JSON carrier modes (file, CFG_CONFIG_B64, both: the file wins) x 3 cli spellings x the second field\'s subsets, each with its own environment and config file; the field must equal the strconv-parsed value of the highest-priority source mentioning it, the second field its own, and trailing args are preserved. Plus built-in flag tokens (-help, --help=true, -help=false) in front of the arguments, and structs of 3..300 int fields with every field given by its own combination of sources.',
    note='Trusted base: strconv / time.ParseDuration / base64 as value parsers; literal environment names in the harness.'),
  'C18': dict(engine='fault enumeration (vos seam)', cat='fault_enumeration', ref='4 (C18), 2.1',
    technique='exhaustive enumeration of fault positions: every numbered file-system call of each scenario fails in turn (plus calls revealed by a fault, and every pair in thorough), on a real temporary directory and a second real file system',
-   text='111 scenarios (size x destination x alias x parent x source presence, CopyFile and MoveFile, real EXDEV between / and /dev/shm) x every single fault position incl. partial copies (about 600 runs quick; every pair of positions in thorough); byte-level snapshots before/after decide; the source may be removed only once the destination is complete (checked at the remove call).',
+   text='111 scenarios (size x destination x alias x parent x source presence, CopyFile and MoveFile, real EXDEV between / and /dev/shm) x every single fault position incl. partial copies (about 600 runs quick; every pair of positions in thorough); byte-level snapshots before/after decide; the source may be removed only once the destination is complete (checked at the remove call). Aliases include the source being a symbolic link to the destination; contents include zero tails and all-zero files at 64 KiB, 128 KiB and 1 MiB.',
    note='Trusted base: the vos seam (engine/shim/vos) mounted over os/io calls of util/osutil by the instrumenter; real file systems.'),
  'C20': dict(engine='spin + real-process replay', cat='model_checking', ref='4 (C20), 2.5',
    technique='Promela model of caller/launcher/daemon checked exhaustively by spin (no partial-order reduction), parameterised by whether the SIGINT handler of the launcher is in place before cmd.Start (measured on the real processes, cross-checked against the source); every reachable schedule class is obtained by reachability queries with replayed witness trails and then replayed on real processes through the verif pause points',
-   text='Model: all interleavings of 1 and 2 concurrent Launch calls (52 / 6509 states on the current tree), invariants: Launch ok => Done() happened, marker present, daemon alive, launcher gone; Done() happened and daemon alive => Launch ok. Classes = when Done() landed relative to the two pause points of the launcher; each class and the free race, for one and two concurrent launches (10 plans, 15 launches), is forced on real processes built with -tags verif: Launch must return the daemon pid only after Done(), the marker must exist, the daemon must stay alive and be orphaned, the launcher must be gone, the real processes decide; an outcome the model does not have for a class is recorded as a conformance warning in the evidence.',
+   text='Model: all interleavings of 1 and 2 concurrent Launch calls (52 / 6509 states on the current tree), invariants: Launch ok => Done() happened, marker present, daemon alive, launcher gone; Done() happened and daemon alive => Launch ok. Classes = when Done() landed relative to the two pause points of the launcher; each class and the free race, for one and two concurrent launches (10 plans, 15 launches), is forced on real processes built with -tags verif: Launch must return the daemon pid only after Done(), the marker must exist, the daemon must stay alive and be orphaned, the launcher must be gone, the real processes decide; an outcome the model does not have for a class is recorded as a conformance warning in the evidence. One more class: the daemon is held before Done() while every timer armed by the daemon package fires at once (scaled real timers mounted by overlay): Launch must still not return.',
    note='Trusted base: spin 6.5, the Promela model (models/c20_daemon.pml), the two pause points (hook commit, build tag verif), the OS. Inside a class the kernel schedules freely; no timeout is used as an oracle (a step exceeding 30 s is INFRA-ERROR).'),
 }
 
